@@ -1755,7 +1755,7 @@ Non-empty legal slices and constructions must succeed.");
     let items = exhaustive_items(d);
     cx.enum_check("exhaustive", items.len() as u64, true, |i, obs| exhaustive_item(&items[i as usize], i, obs));
 
-    let n = cx.n(30_000, 1_000_000);
+    let n = cx.n(100_000, 1_000_000);
     cx.prop_check("histories", n, hist_case, |c, obs| run_hist(c, obs));
 
     let dd = cx.n(3, 5) as u32;
